@@ -443,6 +443,12 @@ func exprToType(e SExpr) *STypeE {
 		if id, ok := e.X.(*SIdent); ok {
 			return &STypeE{Kind: "name", Pkg: id.Name, Name: e.Sel}
 		}
+	case *SUn:
+		if e.Op == "*" {
+			if el := exprToType(e.X); el != nil {
+				return &STypeE{Kind: "ptr", Elem: el}
+			}
+		}
 	}
 	return nil
 }
